@@ -33,7 +33,6 @@ Close Scope string_scope.
 
 
 Definition process_paragraph (s : st) : st := (wo (format_paragraph s (flat (buf s))) s) <| buf := [] |> <| par := false |>.
-Definition end_par (b : pbreak) (s : st) : st := if par s then end_paragraph b (process_paragraph s) else s.
 
 Definition last_scope (m : string) (l : list scope) : option scope :=
   fold_left (fun acc sc => if str_eqb (sc_macro sc) (runes m) then Some sc else acc) l None.
@@ -41,6 +40,12 @@ Definition scope_verse (s : st) : bool :=
   match top (sblock s) with Some sc => str_eqb (sc_macro sc) (R "Bl") && str_eqb (sc_tag sc) (R "verse") | None => false end.
 Definition scope_it (s : st) : bool :=
   match top (sblock s) with Some sc => str_eqb (sc_macro sc) (R "It") | None => false end.
+(* endParagraph: an open verse line ends with its stanza (D27) *)
+Definition end_par (b : pbreak) (s : st) : st :=
+  if par s then
+    let s' := process_paragraph s in
+    if scope_verse s' && verse s' then (end_stanza s') <| verse := false |> else end_paragraph b s'
+  else s.
 
 (* pushScope: the opening line is that of the outermost user-macro call, else of the current block (which must exist) *)
 Definition mk_scope (m tag id : str) (req : bool) (s : st) : scope * st :=
